@@ -348,6 +348,10 @@ impl FilePersist {
             return Err(e.into());
         }
 
+        // Make the rename durable before anything that depends on it (the WAL rewrite that
+        // follows a flush must never reach the disk before the metadata it relies on)
+        sync_directory(&dir);
+
         Ok(())
     }
 
@@ -796,6 +800,11 @@ fn write_updates_parquet(path: &PathBuf, updates: &[Update]) -> StorageResult<()
     // Atomic rename (POSIX guarantees atomicity)
     fs::rename(&tmp_path, path)?;
 
+    // Make the rename durable before the shard metadata starts referencing this batch
+    if let Some(parent) = path.parent() {
+        sync_directory(parent);
+    }
+
     Ok(())
 }
 
@@ -873,7 +882,7 @@ fn read_updates_parquet(path: &PathBuf) -> StorageResult<Vec<Update>> {
 /// On POSIX systems, file deletion and rename are only guaranteed durable
 /// after the parent directory inode is fsynced. Without this, a crash can
 /// "resurrect" deleted files or roll back renames.
-fn sync_directory(dir: &std::path::Path) {
+pub(crate) fn sync_directory(dir: &std::path::Path) {
     if let Ok(d) = fs::File::open(dir) {
         let _ = d.sync_all();
     }
